@@ -11,8 +11,8 @@ from __future__ import annotations
 ID = "C41"
 LEVEL = "exploration"
 TIERS = {
-    "quick": {"runs": 40_000, "wall": 80, "chunk": 400, "shrink_s": 30, "run_cap_s": 30},
-    "thorough": {"runs": 5_000_000, "wall": 840, "chunk": 1000, "shrink_s": 90, "run_cap_s": 30},
+    "quick": {"runs": 40_000, "wall": 80, "chunk": 400, "shrink_s": 30, "run_cap_s": 120},
+    "thorough": {"runs": 5_000_000, "wall": 840, "chunk": 1000, "shrink_s": 90, "run_cap_s": 120},
 }
 RULE = (
     "one run = one generated recording program of <=25 statements: nested AnnotatedQueue / QuantumTape / "
@@ -200,6 +200,13 @@ def gen_case(streams, tier):
 # ------------------------------------------------------------------------------------------------
 
 
+class _Slot:
+    __slots__ = ("obj", "name", "applied_from")
+
+    def __init__(self, obj, name=None, applied_from=None):
+        self.obj, self.name, self.applied_from = obj, name, applied_from
+
+
 class _Frame:
     __slots__ = ("kind", "items", "obj", "indeterminate", "sid")
 
@@ -247,26 +254,37 @@ def run_case(case):
             viol("active_context_wrong", {"where": where},
                  {"expected_sid": fr.sid if fr else None, "observed": describe(ctx)})
 
-    def record(obj):
+    # The model works on program *variables*, not on object identity alone: an entry created by
+    # qp.apply(v) is a separate entry of the program even if a faulty implementation queues v itself
+    # instead of a copy -- consuming v later (adjoint(v), v @ w, ...) must not take the applied entry away.
+    def record(obj, name=None, applied_from=None):
         fr = active()
         if fr is not None:
-            fr.items.append(obj)
+            fr.items.append(_Slot(obj, name, applied_from))
         else:
             counters["under_stop_recording"] += 1 if len(stacks) > 1 else 0
 
-    def consume(obj):
+    def _drop(pred):
         fr = active()
         if fr is not None:
             n0 = len(fr.items)
-            fr.items = [x for x in fr.items if x is not obj]
+            fr.items = [x for x in fr.items if not pred(x)]
             if len(fr.items) != n0:
                 counters["consumed_operands"] += 1
+
+    def consume_name(name):
+        _drop(lambda sl: sl.name == name)
+
+    def consume(obj):
+        # by object (flattened operands of a result): an applied entry that aliases its source object
+        # is not the object the program consumed
+        _drop(lambda sl: sl.obj is obj and not (sl.applied_from is not None and sl.obj is env.get(sl.applied_from)))
 
     def compare(fr, observed_ops, observed_mps, ordered_together, how):
         counters["contexts_compared"] += 1
         if fr.indeterminate:
             return
-        exp = [x for x in fr.items if isinstance(x, (Operator, MP))]
+        exp = [x.obj for x in fr.items if isinstance(x.obj, (Operator, MP))]
         if ordered_together:
             obs = [o for o in observed_ops if isinstance(o, (Operator, MP))]
             ok = len(obs) == len(exp) and all(a is b for a, b in zip(obs, exp))
@@ -314,7 +332,7 @@ def run_case(case):
                             # a QuantumTape announces itself to the enclosing context when entered;
                             # it is neither an operator nor a measurement, so it is not compared, but
                             # an enclosing *tape* treats it as an operation when it checks ordering
-                            active().items.append(cm)
+                            active().items.append(_Slot(cm))
                         try:
                             with cm:
                                 stacks[-1].append(fr)
@@ -330,7 +348,7 @@ def run_case(case):
                             # a tape rejects an operation recorded after a measurement when it closes
                             seen_mp = False
                             bad_order = False
-                            for x in fr.items:
+                            for x in (sl.obj for sl in fr.items):
                                 if isinstance(x, MP):
                                     seen_mp = True
                                 elif seen_mp:
@@ -357,7 +375,7 @@ def run_case(case):
             elif k == "op":
                 obj = build_gate(s["g"])
                 env[s["id"]] = obj
-                record(obj)
+                record(obj, s["id"])
             elif k == "wrap":
                 args = [env.get(a) for a in s["args"]]
                 if any(a is None or isinstance(a, MP) for a in args):
@@ -392,8 +410,8 @@ def run_case(case):
                     trace.log("rejected", s["sid"], type(e).__name__)
                     check_stack("after_rejection")
                     continue
-                for a in args:
-                    consume(a)
+                for a_name in s["args"]:
+                    consume_name(a_name)
                 # arithmetic constructors flatten nested sums/products/scalings: whatever ends up
                 # as a direct operand of the result is "recorded only through its wrapper" too
                 b = getattr(obj, "base", None)
@@ -402,7 +420,7 @@ def run_case(case):
                 for b in getattr(obj, "operands", ()) or ():
                     consume(b)
                 env[s["id"]] = obj
-                record(obj)
+                record(obj, s["id"])
             elif k == "mp":
                 a = env.get(s["arg"])
                 if a is None or isinstance(a, MP):
@@ -419,13 +437,13 @@ def run_case(case):
                         fr.indeterminate = True
                     trace.log("rejected", s["sid"], type(e).__name__)
                     continue
-                consume(a)
+                consume_name(s["arg"])
                 env[s["id"]] = obj
-                record(obj)
+                record(obj, s["id"])
             elif k == "mpw":
                 obj = getattr(qp, s["kind"])(wires=s["wires"])
                 env[s["id"]] = obj
-                record(obj)
+                record(obj, s["id"])
             elif k == "apply":
                 a = env.get(s["arg"])
                 if a is None:
@@ -449,9 +467,7 @@ def run_case(case):
                 for b in getattr(obj, "operands", ()) or ():
                     consume(b)
                 env[s["id"]] = obj
-                record(obj)
-                if obj is a and any(x is a for x in fr.items[:-1]):
-                    pass
+                record(obj, s["id"], applied_from=s["arg"])
             elif k == "fnwrap":
                 fr = active()
                 made = []
@@ -479,7 +495,7 @@ def run_case(case):
                 if fr is not None and not fr.indeterminate:
                     # the recorded objects are created inside PennyLane: identify them by position
                     new = [o for o in fr.obj.queue if isinstance(o, (Operator, MP))]
-                    known = {id(x) for x in fr.items}
+                    known = {id(x.obj) for x in fr.items}
                     fresh = [o for o in new if id(o) not in known]
                     names = [o.name for o in fresh]
                     ok = len(fresh) == len(expect) and all(e is None or e == nme for e, nme in zip(expect, names))
@@ -490,7 +506,7 @@ def run_case(case):
                              {"expected": expect, "observed": names})
                         fr.indeterminate = True
                     else:
-                        fr.items.extend(fresh)
+                        fr.items.extend(_Slot(o) for o in fresh)
             elif k == "raise":
                 trace.log("raise")
                 raise Boom()
